@@ -16,11 +16,11 @@ T == Traces[tid].ev
 E == T[l]
 Is(e) == l <= Len(T) /\ E.a = e
 Adv == l' = l + 1 /\ UNCHANGED tid
-NoFile == [ok |-> FALSE, mem |-> EmptyMem, start |-> NoAddr, base |-> <<0, 0>>, fmt |-> "none"]
+NoFile == [ok |-> FALSE, mem |-> EmptyMem, start |-> NoAddr, base |-> <<0, 0>>, fmt |-> "none", lo |-> 0, hi |-> 0 - 1]
 \* the logged projection of the real objects equals the (primed) spec state; the absolute address of an image without a
 \* single byte is not asserted (the property speaks about where bytes are)
-PostMatches(F) == /\ Len(E.len) = Len(F) /\ Len(E.abs) = Len(F)
-                  /\ LET TB == Tab(F) IN \A n \in Ids(F) : E.len[n] = TB.len[n] /\ (TB.len[n] > 0 => E.abs[n] = Abs(F, n))
+PostMatchesT(F, TB) == \A n \in Ids(F) : E.len[n] = TB.len[n] /\ (TB.len[n] > 0 => E.abs[n] = Abs(F, n))
+PostMatches(F) == Len(E.len) = Len(F) /\ Len(E.abs) = Len(F) /\ PostMatchesT(F, Tab(F))
 TInit == tid \in 1..Len(Traces) /\ l = 1 /\ Init /\ file = NoFile /\ TLCSet(tid, 1)
 Acyclic(ns) == \A k \in 1..Len(ns) : ns[k].par >= 0 /\ ns[k].par < k
 TTree == /\ Is("Tree") /\ forest = <<>> /\ Acyclic(E.nodes)
@@ -35,8 +35,9 @@ TSetSize == Is("SetSize") /\ SetSize(E.n, E.s) /\ PostMatches(forest') /\ UNCHAN
 TJoin == Is("Join") /\ Join(E.n) /\ PostMatches(forest') /\ UNCHANGED file /\ Adv
 TUpdateOffsets == Is("UpdateOffsets") /\ UpdateOffsets(E.n) /\ PostMatches(forest') /\ UNCHANGED file /\ Adv
 \* observations: the state does not change
+VerdictAllows(v, res) == res \in {"ok", "error"} /\ (v = "any" \/ v = res)
 TValidate == /\ Is("Validate") /\ E.n \in Ids(forest)
-             /\ LET v == Verdict(forest, E.n) IN E.res \in {"ok", "error"} /\ (v = "any" \/ v = E.res)
+             /\ VerdictAllows(Verdict(forest, E.n), E.res)
              /\ UNCHANGED <<vars, file>> /\ Adv
 TExport == /\ Is("Export") /\ E.n \in Ids(forest)
            /\ ExportAsserted(forest, E.n) => E.ex = "ok" /\ Matches(Bytes(forest, E.n), E.d)
@@ -44,12 +45,8 @@ TExport == /\ Is("Export") /\ E.n \in Ids(forest)
 \* ---- file formats
 AddrOK(a) == Len(a) = 2 /\ a[1] \in 0..65535 /\ a[2] \in 0..65535
 Stored(s) == s.k \in {"bin", "pat"}                      \* HEX / S19 do not store gaps of images without a pattern
-TFile ==
-  /\ Is("File") /\ E.n \in Roots(forest) /\ AddrOK(E.base) /\ ExportAsserted(forest, E.n) /\ ILen(forest, E.n) >= 1
-  /\ LET dec == Decode(E.fmt, E.recs, E.base)
-         M == Map(forest, E.n)
-         exp == BytesOf(forest, M)
-         L == Len(exp) IN
+\* (heavy values travel as operator arguments: TLC evaluates an argument once, a LET-bound value at every use)
+FileHolds(dec, M, exp, L) ==
      /\ dec.ok
      /\ \A i \in DOMAIN dec.mem : i >= 0 /\ i < L                                       \* nothing outside the image
      /\ \A i \in 0..(L - 1) :
@@ -57,29 +54,29 @@ TFile ==
           THEN i \in DOMAIN dec.mem /\ (exp[i + 1] = 0 - 1 \/ dec.mem[i] = exp[i + 1])    \* the image's byte at its address
           ELSE TRUE
      /\ (E.fmt # "BIN" /\ E.exec.k = "addr") => dec.start = E.exec                      \* the execution start address is kept
-     /\ file' = [ok |-> TRUE, mem |-> dec.mem, start |-> dec.start, base |-> E.base, fmt |-> E.fmt]
+     /\ file' = [ok |-> TRUE, mem |-> dec.mem, start |-> dec.start, base |-> E.base, fmt |-> E.fmt, lo |-> dec.lo, hi |-> dec.hi]
+FileHoldsM(dec, M) == FileHolds(dec, M, BytesOf(forest, M), Len(M))
+TFile ==
+  /\ Is("File") /\ E.n \in Roots(forest) /\ AddrOK(E.base) /\ ExportAsserted(forest, E.n) /\ ILen(forest, E.n) >= 1
+  /\ FileHoldsM(Decode(E.fmt, E.recs, E.base), Map(forest, E.n))
   /\ UNCHANGED vars /\ Adv
 \* a file written by an independent encoder (no image behind it): only decoded
-TRawFile ==
-  /\ Is("RawFile") /\ AddrOK(E.base)
-  /\ LET dec == Decode(E.fmt, E.recs, E.base) IN
-     /\ dec.ok /\ DOMAIN dec.mem # {}
-     /\ file' = [ok |-> TRUE, mem |-> dec.mem, start |-> dec.start, base |-> E.base, fmt |-> E.fmt]
-  /\ UNCHANGED vars /\ Adv
+RawFileHolds(dec) == /\ dec.ok /\ DOMAIN dec.mem # {}
+                     /\ file' = [ok |-> TRUE, mem |-> dec.mem, start |-> dec.start, base |-> E.base, fmt |-> E.fmt, lo |-> dec.lo, hi |-> dec.hi]
+TRawFile == Is("RawFile") /\ AddrOK(E.base) /\ RawFileHolds(Decode(E.fmt, E.recs, E.base)) /\ UNCHANGED vars /\ Adv
 SegMem(s, base) == LET r0 == Rel(s.at, base) IN [i \in r0..(r0 + Len(s.d) - 1) |-> s.d[i - r0 + 1]]
 RECURSIVE SegsMem(_, _, _)
 SegsMem(segs, i, base) == IF i > Len(segs) THEN EmptyMem ELSE SegMem(segs[i], base) @@ SegsMem(segs, i + 1, base)
-TLoad ==
-  /\ Is("Load") /\ file.ok /\ E.fmt = file.fmt
-  /\ \/ E.fmt = "BIN" /\ E.textlike /\ E.res = "ok"           \* a BIN payload that is itself text: format sniffing is inherently ambiguous
-     \/ /\ E.res = "ok" /\ AddrOK(E.abs) /\ \A i \in 1..Len(E.segs) : AddrOK(E.segs[i].at) /\ Rel(E.segs[i].at, file.base) # Far
-        /\ LET lm == SegsMem(E.segs, 1, file.base)
-               lo == Min(DOMAIN file.mem)
-               hi == Max(DOMAIN file.mem) IN
+LoadHolds(lm, lo, hi) ==
            /\ lm = file.mem                                                            \* same bytes at the same addresses
            /\ SumSeq([i \in 1..Len(E.segs) |-> Len(E.segs[i].d)]) = Cardinality(DOMAIN file.mem)   \* segments do not overlap
            /\ Rel(E.abs, file.base) = lo /\ E.len = hi - lo + 1                        \* the loaded image starts at the first byte
            /\ E.d = [i \in 1..(hi - lo + 1) |-> IF (lo + i - 1) \in DOMAIN file.mem THEN file.mem[lo + i - 1] ELSE 0]
+TLoad ==
+  /\ Is("Load") /\ file.ok /\ E.fmt = file.fmt /\ file.hi >= file.lo
+  /\ \/ E.fmt = "BIN" /\ E.textlike /\ E.res = "ok"           \* a BIN payload that is itself text: format sniffing is inherently ambiguous
+     \/ /\ E.res = "ok" /\ AddrOK(E.abs) /\ \A i \in 1..Len(E.segs) : AddrOK(E.segs[i].at) /\ Rel(E.segs[i].at, file.base) # Far
+        /\ LoadHolds(SegsMem(E.segs, 1, file.base), file.lo, file.hi)
         /\ file.start.k = "addr" => E.exec = file.start
   /\ UNCHANGED <<vars, file>> /\ Adv
 TNext == TTree \/ TNew \/ TAdd \/ TAppend \/ TSetSize \/ TJoin \/ TUpdateOffsets \/ TValidate \/ TExport \/ TFile \/ TRawFile \/ TLoad
